@@ -25,11 +25,12 @@ class _Times:
         self.show = {}
 
     def vid(self, t) -> str:
-        key = (t.format, t.scale, repr(float(t.jd1)), repr(float(t.jd2)))
+        # canonical (the same in every worker): format, scale and the two-part Julian date
+        key = f"{t.format}/{t.scale}/{float(t.jd1)!r}/{float(t.jd2)!r}"
         if key not in self.ids:
-            self.ids[key] = f"v{len(self.ids)}"
-            self.show[self.ids[key]] = "{value}".format(value=t)
-        return self.ids[key]
+            self.ids[key] = key
+            self.show[key] = "{value}".format(value=t)
+        return key
 
 
 def tree_json(t, times: _Times):
